@@ -20,6 +20,7 @@ NORMALISATIONS = [
     "N1 ScanLock: mocktikv ignores StartKey/EndKey/Limit and returns no lock_type; the wrapping client keeps keys >= start, < end, in key order, first `limit`, and fills lock_type from the MVCC debugger (TiKV's contract)",
     "N2 ResolveLock{TxnInfos}: only when VERIF_C14_N2=auto|on (default off since the mock honours TxnInfos, fix 448a517; see mock_probe.n2_mode / n2_active of this run): the wrapping client issues one single-transaction ResolveLock per TxnInfo with the same region context. With the default, a mock that ignores TxnInfos again is reported by the lock audit (and by the probe case) as a violation",
     "N3 DeleteRange{NotifyOnly}: mocktikv deletes anyway; the wrapping client answers notify-only requests itself after an epoch check",
+    "N1u (unistore tier): unistore's ScanLock ignores StartKey/EndKey and counts the limit from the region start; the wrapping client requests everything and applies TiKV's contract; lock values are taken from the script (ScanLock reports none)",
     "populations are written and audited directly through the mock's MVCCStore interface (Prewrite/PessimisticLock/Commit/Rollback/MvccGetByKey), not through region-routed RPCs",
 ]
 
@@ -364,7 +365,9 @@ def do_gc(cx, res):
                 r0 = pre_by_key[k]
                 if t <= sp and in_range(k, s, e) and r0["lock"]["kind"] != "pess":
                     by_check = any(ev["t"] == "check" and ev.get("s") == k and ev.get("ts") == t for ev in evs)   # a primary rolled back by CheckTxnStatus
-                    if not by_check and not any(in_range(k, ev["rs"], ev["re"]) and any(ti[0] == t for ti in ev.get("infos") or []) for ev in resolves):
+                    # with several workers and injected splits the logged region range (looked up after serving) may already be split again
+                    exact = c.get("conc", 1) == 1 or not c.get("inj")
+                    if not by_check and not any((not exact or in_range(k, ev["rs"], ev["re"])) and any(ti[0] == t for ti in ev.get("infos") or []) for ev in resolves):
                         bad.append({"uncovered_lock": k, "txn": t})
             if bad:
                 cx.mismatch(res, "ResolveLock requests (multiset) vs RangeTask.committed_at", bad[:4], None)
@@ -614,7 +617,7 @@ def main(tier, replay):
         if cx.stats.get("gc:wf-hypotheses-fail"):
             v.violation({"kind": "harness", "correspondence": "generated lock populations violate the theorems' well-formedness hypotheses", "error": cx.stats["gc:wf-hypotheses-fail"]}, has_input=False)
     cov.update(evaluations=len(results) + cx.oracle_evals, distinct_nontrivial=len(cx.sigs),
-               rule="seeded generators (see docs/C14.md): gc populations over keys of 1-3 bytes from {a..h} with 0-5 initial splits (boundaries on data keys included), 2-14 transactions in states committed/rolled-back/pending/pending-without-primary/pessimistic(pending, mixed, committed) + finished history, safe point around the start timestamps, scan limit 1-4 (1024 for the GCResolveLockPhase/GC modes), 1-8 workers, 1-3 regions per task, sub-ranges, splits injected before the i-th ScanLock/ResolveLock; partition cases with PD-level splits and injected handler failures; delete-range cases incl. notify-only and splits before the i-th DeleteRange; visibility cases below/at/above the cached safe point incl. a stale cache. distinct_nontrivial = distinct case specs that are non-trivial: gc with >=1 old lock in the range, partition with >=2 sub-ranges, delete with >=1 deleted key or >=2 requests, visibility (cached, stale, below/at/above, api) classes",
+               rule="seeded generators (see docs/C14.md): unistore tier (driver gcuni): async-commit leftovers (primary locked; secondaries in 1-5 regions all locked / never prewritten / rolled back / already committed; primary gone), 2PC and pessimistic leftovers, forced order of CheckSecondaryLocks answers, splits during the scan, 2-7 workers, PrimaryMismatch population; mocktikv tier: gc populations over keys of 1-3 bytes from {a..h} with 0-5 initial splits (boundaries on data keys included), 2-14 transactions in states committed/rolled-back/pending/pending-without-primary/pessimistic(pending, mixed, committed) + finished history, safe point around the start timestamps, scan limit 1-4 (1024 for the GCResolveLockPhase/GC modes), 1-8 workers, 1-3 regions per task, sub-ranges, splits injected before the i-th ScanLock/ResolveLock; partition cases with PD-level splits and injected handler failures; delete-range cases incl. notify-only and splits before the i-th DeleteRange; visibility cases below/at/above the cached safe point incl. a stale cache. distinct_nontrivial = distinct case specs that are non-trivial: gc with >=1 old lock in the range, partition with >=2 sub-ranges, delete with >=1 deleted key or >=2 requests, visibility (cached, stale, below/at/above, api) classes",
                samples=list(cx.samples.values()), traces_validated_against_impl=cx.stats.get("gc:trace-validated", 0),
                input_distribution=dict(cx.stats), model_queries=len(cx.queries), model_mismatches=cx.mismatches,
                oracle_evaluations=cx.oracle_evals, oracle_failures=len(oracle_fail),
